@@ -126,6 +126,8 @@ func checkDebug(s *ast.AstProcessDebug, info ProcessTypeInfo) ProcessTypeInfo {
 }
 
 func checkLoop(s *ast.AstProcessLoop, info ProcessTypeInfo) ProcessTypeInfo {
+	// an inner loop must not end the enclosing loop's scope
+	wasInLoop := info.inLoop
 	info.inLoop = true
 	for _, stmt := range s.Body {
 		info = checkStatement(&stmt, info)
@@ -133,7 +135,7 @@ func checkLoop(s *ast.AstProcessLoop, info ProcessTypeInfo) ProcessTypeInfo {
 			return info
 		}
 	}
-	info.inLoop = false
+	info.inLoop = wasInLoop
 	return info
 }
 
